@@ -164,8 +164,8 @@ def run_native(ctx, binary, label, pid, episodes, max_ops, nshards=12, extra=())
                     ctx.inconclusive.append("driver run %s aborted (misaligned pointer dereference: a C07 event)" % lab)
             else:
                 if pid in ("C04", "C05", "C06", "C07"):
-                    ctx.violation("driver-crashed", "[%s] the driver died with status %s: %s" % (lab, rc, text[-400:]),
-                                  "%s driver-crashed %s" % (pid, label), {"stderr": text})
+                    ctx.violation("driver-crashed", "[%s] the driver died with status %s; last hook events: %s; stderr tail: %s" % (lab, rc, hook, text[-300:]),
+                                  "%s driver-crashed %s %s" % (pid, label, " ".join(h.split(" addr=")[0] for h in hook[-1:])[:160]), {"stderr": text, "cmd": " ".join(jobs[0][1])})
                 else:
                     ctx.inconclusive.append("driver run %s died with status %s" % (lab, rc))
         else:
@@ -268,6 +268,12 @@ def after_prepare(ctx, manifest, pid):
                           "C13 %s | %s" % (m["status"][:80], m["history"]), {"definition": m["history"]})
     elif ctx.excluded_modules:
         ctx.count("modules_excluded_because_they_do_not_compile", len(ctx.excluded_modules))
+    for m in manifest["modules"]:
+        for mm in m.get("interface_mismatch", []):
+            returning = "In" in mm.split(":")[0] or "AndUnpackedOut" in mm
+            if (pid == "C05" and returning) or (pid == "C04" and not returning):
+                ctx.violation("generated-interface-differs-from-definition", "%s: %s | definition: %s" % (m["module"], mm, m["history"]),
+                              "%s interface %s | %s" % (pid, re.sub(r"\d+", "#", mm)[:200], m["history"]), {"module": m["module"], "definition": m["history"], "crate": crate_dir(ctx)})
     if pid in ("C04", "C05") and getattr(ctx, "interface_mismatch", None):
         # the driver is derived from the definition: when it does not compile against the
         # generated text, the generated interface does not offer what the definition promises
